@@ -412,12 +412,32 @@ static std::vector<MathSite> collectSites(const IrModel &m)
     return out;
 }
 
+// "root", "nested" or "nested-in-degree" / "nested-in-logbase" (somewhere below a qualifier element)
+static std::string siteContext(const IrModel &m, const MathSite &s)
+{
+    if (s.path.empty()) {
+        return "root";
+    }
+    MathSite top = s;
+    top.path.clear();
+    const ExprP *p = siteNode(const_cast<IrModel &>(m), top);
+    std::string ctx = "nested";
+    for (int i : s.path) {
+        const ExprP &e = *p;
+        if (ctx == "nested" && e->hasQualifier && i == 0 && (e->op == Op::ROOT || e->op == Op::LOG)) {
+            ctx = e->op == Op::ROOT ? "nested-in-degree" : "nested-in-logbase";
+        }
+        p = &e->kids[static_cast<size_t>(i)];
+    }
+    return ctx;
+}
+
 static std::string siteClass(const IrModel &m, const MathSite &s)
 {
     const auto &c = m.comps[static_cast<size_t>(s.comp)];
     std::string k = s.kind == 'm' ? "component-math" : (s.kind == 't' ? "reset-test-value" : "reset-value");
     std::string pos = s.kind == 'm' ? posClass(static_cast<size_t>(s.a), c.math.size()) : posClass(static_cast<size_t>(s.a), c.resets.size());
-    return k + "/" + (s.path.empty() ? "root" : "nested") + "/" + compClass(m, s.comp) + "/" + pos;
+    return k + "/" + siteContext(m, s) + "/" + compClass(m, s.comp) + "/" + pos;
 }
 
 static const char *kMarker = "c04_fault_marker";
@@ -455,6 +475,7 @@ struct Fault
     LocFn locs;
     bool probe = false;   // rule not implemented by the validator / debatable: outcome recorded, never judged
     bool math = false;
+    int maxReps = 1000000; // crash-prone faults are exercised a few times only (each crash costs a worker restart)
     std::function<void(GenOptions &)> tune;
 };
 
@@ -1686,6 +1707,7 @@ void addMathFaults(std::vector<Fault> &cat)
     addMath(cat, "math:cn-text-degenerate-real", {Rule::MATH_CN_FORMAT}, [](const std::string &, const std::string &, Rng &rng) {
         return "<cn cellml:units=\"dimensionless\">" + rng.pick(std::vector<std::string> {"-", ".", "-."}) + "</cn>";
     });
+    cat.back().maxReps = 3; // known: uncaught std::invalid_argument from stod
     addMath(cat, "math:cn-e-notation-malformed", {Rule::MATH_CN_FORMAT}, [](const std::string &, const std::string &, Rng &rng) {
         return "<cn cellml:units=\"dimensionless\" type=\"e-notation\">" + rng.pick(std::vector<std::string> {"1", "1<sep/>", "<sep/>2", "1<sep/>1.5", "1<sep/>x", "a<sep/>2", "1<sep/>2<sep/>3", "1e2<sep/>3"}) + "</cn>";
     });
@@ -2666,7 +2688,7 @@ static Plan makePlan(const std::string &tier)
     const auto &cat = catalogue();
     for (int r = 0; r < reps; ++r) {
         for (size_t f = 0; f < cat.size(); ++f) {
-            if (r < (cat[f].math ? mathReps : reps)) {
+            if (r < std::min(cat[f].maxReps, cat[f].math ? mathReps : reps)) {
                 p.faultOf.push_back(static_cast<uint32_t>(f));
             }
         }
